@@ -41,7 +41,7 @@ m = {
     "hooks": {
         "guard": "--cfg hydro_project_hydro_verif",
         "enable": "harness crates set rustflags = [\"--cfg\", \"hydro_project_hydro_verif\"] in harness/*/.cargo/config.toml (path deps on /repo crates)",
-        "baseline_off_cmd": "cd /repo && cargo nextest run --workspace --no-fail-fast --test-threads 8 --offline",
+        "baseline_off_cmd": "cd /repo && cargo nextest run --workspace --no-fail-fast --tool-config-file pb:/w/lib/nextest.toml --profile pb --test-threads 8 --offline",
         "source_commits": hooks_commits,
         "add_only": True,
     },
